@@ -76,6 +76,7 @@ def corpus():
     items.extend(c11_handmade.listings())
     items.extend(rerun_twins(items))
     items.extend(free_format(items))
+    items.extend(without_a_option(items))
     _STATE['corpus'] = items
     _STATE['by_name'] = {it['name']: i for i, it in enumerate(items)}
     return items
@@ -164,6 +165,36 @@ def rerun_twins(items):
                 'twin_of': item['name'], 'rerun': True}
         out.append(twin)
         item['twin'] = twin['name']
+    return out
+
+
+def without_a_option(items):
+    '''Tripoli-4 run without its '-a' option does not print the rows of a
+    table whose score is zero: the tables the builders receive have holes.
+    The parser's own error for them is fine, another exception is not.'''
+    import re
+    zero = re.compile(r'^[-+]?0\.0+e[-+]00$')
+    out = []
+    for item in items:
+        if item.get("path") is None or len(out) >= 30:
+            continue
+        if 'failure' in item['base']:
+            continue
+        lines = item['data'].decode('utf-8', 'ignore').splitlines(True)
+        kept, removed = [], 0
+        for line in lines:
+            words = line.split()
+            if len(words) >= 3 and zero.match(words[-1]) and \
+                    zero.match(words[-2]):
+                removed += 1
+                continue
+            kept.append(line)
+        if not removed or removed > len(lines) // 2:
+            continue
+        out.append({'name': 'no-a-option/' + item['base'], 'path': None,
+                    'base': 'noa-' + item['base'],
+                    'data': ''.join(kept).encode('utf-8'),
+                    'rows_removed': removed, 'derived': True})
     return out
 
 
